@@ -189,10 +189,13 @@ class Repo:
         if isinstance(base, ast.Subscript):
             dotted = ast.unparse(base.value)
         r = self.resolve_name(ci.module, dotted)
-        if r in self.classes:
+        if r in self.classes and r != ci.qual:
             return r
         simple = dotted.rsplit('.', 1)[-1]
-        cands = self.by_simple.get(simple, [])
+        cands = [c for c in self.by_simple.get(simple, []) if c != ci.qual]
+        if '.' in dotted and dotted.split('.')[0] in ci.module.imports and \
+                not ci.module.imports[dotted.split('.')[0]].startswith(PKG):
+            return None  # qualified name from a foreign package (e.g. logging.Handler)
         if len(cands) == 1:
             return cands[0]
         return None
